@@ -5,7 +5,7 @@ From Coq Require Import ZArith QArith Qcanon List Bool String Ring_theory.
 Import ListNotations.
 Require Import TV.Base.EP TV.Model.Lane TV.Spec.Born TV.gen.Gen_instructions TV.gen.Gen_channel_tables
   TV.Model.GateCheck TV.Model.InstrCheck TV.Model.KrausCheck TV.Proofs.InstrProofs TV.Base.Amp
-  TV.Proofs.CircuitTheorem TV.Proofs.DenseBridge TV.Proofs.KrausSem TV.Proofs.KrausTheorem TV.Proofs.KrausGates TV.Proofs.KrausNoise2 TV.Proofs.KrausCircuit.
+  TV.Proofs.CircuitTheorem TV.Proofs.DenseBridge TV.Proofs.KrausSem TV.Proofs.KrausTheorem TV.Proofs.KrausGates TV.Proofs.KrausNoise2 TV.Proofs.KrausChain TV.Proofs.KrausCircuit TV.Model.Parse TV.Proofs.ParseElab.
 
 (* which Pauli the spiders apply for every error-bit pattern: X/Y/Z_ERROR, PAULI_CHANNEL_1/2, DEPOLARIZE1/2, E(...) *)
 Theorem C02_noise_paulis :
@@ -65,7 +65,8 @@ Proof. exact (conj noise1_at_ok meas_noisy_at_ok). Qed.
    probability of the Pauli drawn at idx) this is the mixture semantics of the channels, channel by channel.  The two-qubit
    channels (DEPOLARIZE2, PAULI_CHANNEL_2; instruction CN2) are inside too: on amplitudes and bookkeeping their program is the
    PAULI_CHANNEL_1 program on the first target followed by the one on the second (bits e0,e1 resp. e2,e3; C02_two_qubit_channel).
-   Correlated chains and MPP noise stay at fragment level (C02_correlated_chain, C02_measurement_noise). *)
+   Correlated chains are inside as well (instruction CE, C02_chain_element below); MPP noise stays at fragment level
+   (C02_measurement_noise). *)
 Theorem C02_circuit_dense :
   forall (R : Type) (rO rI : R) (radd rmul rsub : R -> R -> R) (ropp : R -> R),
   ring_theory rO rI radd rmul rsub ropp eq ->
@@ -91,3 +92,39 @@ Example C02_circuit_inhabited :
             CMp "mr" (1 # 8) true 1; CN "y_error" [1 # 2] 1; CMp "mx" (1 # 1000) false 0; CM "my" false 2]%string%Q in
   (exists ops, ccircuit_ops c = Some ops /\ (20 < List.length ops)%nat) /\ forallb (cinstr_lanes_ok 3) c = true.
 Proof. vm_compute. split; [eexists; split; [reflexivity | repeat constructor] | reflexivity]. Qed.
+
+(* ONE ELEMENT OF A CORRELATED-ERROR CHAIN, anywhere in a circuit: `E(p) P1 q1 ... Pk qk` (first = true: the pending chain is closed
+   first) or `ELSE_CORRELATED_ERROR(p) ...` applies, for every assignment b of the bits, the Pauli product P1 q1 ... Pk qk (a Y
+   factor as Z.X) when the element's chain bit is set and nothing otherwise, times a power of sqrt 2 that depends on lane flags
+   only; the chain bit is error bit number  num_error_bits + num_correlated_error_bits + rel  at the element (rel = error bits
+   other channels take before the chain is closed).  Which element fires with which probability is C02_correlated_chain. *)
+Theorem C02_chain_element :
+  forall (R : Type) (rO rI : R) (radd rmul rsub : R -> R -> R) (ropp : R -> R),
+  ring_theory rO rI radd rmul rsub ropp eq ->
+  forall E : Qc -> R, E 0%Qc = rI -> forall (half : R) (ta tb tc : Qc),
+  forall (first : bool) (tg : list (pauli * nat)) (p : Q) (rel : Z) (sk : kst R),
+  exists C, sq2 R rO rI radd rmul ropp E half ta tb tc C /\ forall b t, skel_eq R t sk ->
+    kfinal R rmul (krun R rO rI radd rmul ropp E half ta tb tc b (ce_ops first tg p rel) t)
+    = Amp.scale R rmul (rmul (E 0%Qc) C)
+        (if bit (berr b) (knerr R sk + kncorr R sk + Z.to_nat rel)%nat
+         then link_spec R rO rI radd rmul ropp E half ta tb tc (link_ops tg rel) (kfinal R rmul t) else kfinal R rmul t).
+Proof. exact ce_sound. Qed.
+(* non-vacuity, from program text: a chain of three elements interrupted by a Z_ERROR and closed after a noisy MRX, followed by a
+   second chain, is read by the parse model as exactly the lane program of the elaborated circuit (with the chain bits renumbered
+   as finalize_correlated_error does) -- so C01_parsed_text_is_kraus_product applies to it *)
+Example C02_chain_from_text :
+  let c := [ mkI "H" [] TagNone [TQ 0 false; TQ 1 false];
+             mkI "E" [1 # 4] TagNone [TPauli PX 0 false; TPauli PY 2 false];
+             mkI "ELSE_CORRELATED_ERROR" [1 # 2] TagNone [TPauli PZ 1 false];
+             mkI "Z_ERROR" [1 # 8] TagNone [TQ 0 false];
+             mkI "ELSE_CORRELATED_ERROR" [1 # 8] TagNone [TPauli PY 1 false; TPauli PX 2 false];
+             mkI "MRX" [1 # 16] TagNone [TQ 2 true];
+             mkI "E" [1 # 16] TagNone [TPauli PZ 2 false];
+             mkI "M" [] TagNone [TQ 0 false; TQ 1 false; TQ 2 false] ]%string in
+  match elab_circuit 3 c with
+  | Some cs => parse_is_circuit 3 c cs && forallb (cinstr_lanes_ok 4) cs
+               && existsb (fun i => match i with CE true _ _ 2%Z => true | _ => false end) cs
+               && existsb (fun i => match i with CE false _ _ 1%Z => true | _ => false end) cs
+  | None => false
+  end = true.
+Proof. vm_compute. reflexivity. Qed.
